@@ -17,7 +17,7 @@ from ..refmodel import eems
 from ..refmodel.declarations import table as decl_table
 
 ENGINE = "immutsim"
-BUDGET = {"C09": {"quick": 8000, "thorough": 200000}}
+BUDGET = {"C09": {"quick": 12000, "thorough": 200000}}
 DECL = decl_table("csv")
 WORK = "/sim/work"
 CONSUMERS = tuple(modelgen.ALL_OPS) + ("PrintVars", "EEMSWrite")
